@@ -16,7 +16,7 @@ func init() {
 	register(&propertyDef{
 		id:    "C08",
 		title: "accepted workflows are type-sound",
-		rules: []ruleFunc{c08R1, c08R2, c08R3, c08R4, c08R5, c08R6, c08R7, c08R8, c08R9, c08R10, c08R11},
+		rules: []ruleFunc{c08R1, c08R2, c08R3, c08R4, c08R5, c08R6, c08R7, c08R8, c08R9, c08R10, c08R11, c08R12},
 		decided: "writer/reader agreement for every engine-generated step output: each (stage, output id) a provider reports with a literal value is declared in that provider's Lifecycle, the value is in serialized (map) form, its key set equals the declared object's properties and every key's Go type matches the property's schema constructor (R1); " +
 			"stage inputs are validated before hand-over (R2 = C02.R6); the returned output is validated (R3 = C03.R4); the workflow input is validated first (R4 = C19.R1); a loop step lists an item under `success` only after comparing the sub-run's output id with \"success\" (R5). Shared: the data model holds the normalised input on every path (R6 = C19.R2). The declared schemas of engine-generated outputs carry no constraint the producing code does not establish (R1c); the typing walkers descend into every element (R7 = C02.R7).",
 		notDecided: "soundness of ValidateCompatibility and of type inference (needs generated workflows); conformance of what a plugin itself sends (no engine-side validation exists).",
